@@ -238,6 +238,11 @@ def handles():
             gc.enable()
 
 
+def zlib_crc(text):
+    import zlib
+    return zlib.crc32(str(text).encode())
+
+
 def write_foreign(f, path, strings=False):
     """the content of the in-memory file f written with netCDF4 directly, the
     way other tools write archive files: float data variables PACKED (int16
@@ -280,8 +285,10 @@ def write_foreign(f, path, strings=False):
                 nv[...] = a
             else:
                 kw = {}
-                if masked and dt.kind in 'fiu':
+                if masked and dt.kind in 'fiu' and zlib_crc(k) % 2:
                     kw['fill_value'] = dt.type(getattr(a, 'fill_value', 0))
+                # (else: no missing code of its own - netCDF4 stores its
+                # default fill value for the masked cells)
                 nv = ds.createVariable(k, 'S1' if dt.kind in 'SU' else dt,
                                        tuple(v.dimensions), **kw)
                 nv.setncatts(atts)
